@@ -201,6 +201,8 @@ OPAQUE = {
     "Semaphore": {"raises": [], "returns": ANY},
     # HMAC-SHA256 over (key, bytes) (assumed contract A4: total; idealised as injective under a fixed secret)
     "_compute_hmac_bytes": {"raises": [], "returns": STR},
+    # difflib.get_close_matches over (str, set[str]) (assumed contract A4: total; only feeds the error message text)
+    "_find_similar_names": {"raises": [], "returns": OPT(STR)},
 }
 
 
@@ -245,7 +247,12 @@ def _spec_forall_keys(ex, args, kwargs, s):
     finally:
         ex.pure_depth -= 1
         smt.pop_binder()
-    hyp = [smt.is_str(k)] + list(extra)
+    # definitional view facts that do not mention the bound key are hoisted out of the quantifier
+    # (F => forall k. B  ==  forall k. (F => B) when k is not free in F)
+    from z3.z3util import get_vars
+    dep = [f for f in extra if any(v.eq(k) for v in get_vars(f))]
+    s.assume(*[f for f in extra if not any(f is d for d in dep)])
+    hyp = [smt.is_str(k)] + dep
     yield s, BVal(z3.ForAll([k], z3.Implies(z3.And(*hyp), body)))
 
 
@@ -281,7 +288,14 @@ def _lib_pickle_dumps(ex, args, kwargs, s):
     yield from opaque_result(ex, "pickle.dumps", s, ANY, {"raises": ["PicklingError", "TypeError", "AttributeError"]})
 
 
+def _lib_iskeyword(ex, args, kwargs, s):
+    """keyword.iskeyword (= frozenset(kwlist).__contains__): a total predicate of its argument (uninterpreted)."""
+    from pyvc.engine import to_v
+    yield s, BVal(z3.Function("kw_iskeyword", smt.V, z3.BoolSort())(to_v(args[0], s)))
+
+
 LIBRARY = {
+    "None.frozenset.__contains__": _lib_iskeyword,
     "_hashlib.compare_digest": _lib_compare_digest,
     "hmac.compare_digest": _lib_compare_digest,
     "_operator._compare_digest": _lib_compare_digest,
